@@ -50,9 +50,42 @@ class Chooser:
     def exp(self, rate):
         return self.dyadic(0, 12, self.rng.choice([1, 2, 4, 8]))
 
+    def directed_event(self):
+        """policy["events"] = [k0, k1, ...]: the j-th event choice takes event k_j (mod the number of
+        events: birth/death of each extant lineage, in the order of the code's event list)."""
+        ev = self.policy.get("events")
+        j = self.policy.setdefault("_j", 0)
+        if ev is None or j >= len(ev):
+            return None
+        self.policy["_j"] = j + 1
+        return ev[j]
+
     def unit(self):
         if self.capped():
             return Fraction(0)      # first event = a birth: forces the walk to its end
+        if self.policy.get("events") is not None and self.policy.get("mode") == "bd":
+            k = self.directed_event()
+            if k is None:
+                return Fraction(0)
+            b, d = Fraction(self.policy["b"]), Fraction(self.policy["d"])
+            n = int(Fraction(self.owner.last_exp_rate) / (b + d))
+            w = [b, d] * n
+            k %= len(w)
+            while w[k] == 0:
+                k = (k + 1) % len(w)
+            lo = sum(w[:k]) / sum(w)
+            hi = sum(w[:k + 1]) / sum(w)
+            mid = (lo + hi) / 2
+            return Fraction(int(mid * 2 ** 24), 2 ** 24)     # dyadic, strictly inside the event's interval
+        if self.policy.get("events") is not None and self.policy.get("mode") == "fbd":
+            k = self.policy.get("_k")
+            if k is None:
+                return Fraction(0)
+            b, d = Fraction(self.policy["b"]), Fraction(self.policy["d"])
+            thr = b / (b + d)
+            if k % 2 == 0 or d == 0:
+                return Fraction(int(thr / 2 * 2 ** 24), 2 ** 24)
+            return Fraction(int((thr + 1) / 2 * 2 ** 24) + 1, 2 ** 24)
         p = self.policy.get("unit")
         if p == "low":       # favours the first events (births of early lineages)
             return self.dyadic(0, 5, 16)
@@ -70,6 +103,12 @@ class Chooser:
         return p
 
     def index(self, lo, hi):
+        if self.policy.get("events") is not None and self.policy.get("mode") == "fbd" and not self.capped():
+            k = self.directed_event()
+            self.policy["_k"] = k
+            if k is None:
+                return lo
+            return lo + (k // 2) % (hi - lo + 1)
         return self.rng.randint(lo, hi)
 
     def sample(self, n, k):
